@@ -411,6 +411,8 @@ def run_cadence(case):
             continue
         if not case.get("all_checkpoints", True) and case.get("resume_k") is None and ci >= 2 and ci % 2:
             continue  # quick: the first two checkpoints and every second one afterwards
+        if case.get("resume_only") is not None and case.get("resume_k") is None and ci not in [c_ % max(1, len(cks)) for c_ in case["resume_only"]]:
+            continue  # large scopes: a first, a middle and the last checkpoint only
         rcfg = dict(cfg)
         rcfg.pop("save_every")
         q = Probe(rcfg, base=case["base"], fs=fs, iter_offset=k, monitors=[coherence_monitor()])
@@ -510,8 +512,8 @@ def plan(ctx):
                 ses.append({"kind": "session", "cfg": scfg, "base": ctx.seed, "depth": 9, "patterns": [sh, 4 if th else 8]})
     ctx.explore("session-sequences", ses)
     from mc.pipeline import LARGE
-    big = [{"kind": "cadence", "base": ctx.seed, "all_checkpoints": False, "cfg": dict(c, normalize=True)} for c in LARGE if c.get("clustering")]
-    big += [{"kind": "cadence", "base": ctx.seed, "all_checkpoints": False, "cfg": dict(n_particles=400, d=2, n_total=1200, eval="vec", clustering=True, target="sixblob", n_max_clusters=None, normalize=nm, cluster_every=ce)}
+    big = [{"kind": "cadence", "base": ctx.seed, "all_checkpoints": False, "resume_only": [1, -1], "cfg": dict(c, normalize=True)} for c in LARGE if c.get("clustering") and c.get("max_iters") is None]
+    big += [{"kind": "cadence", "base": ctx.seed, "all_checkpoints": False, "resume_only": [1, -1], "cfg": dict(n_particles=400, d=2, n_total=1200, eval="vec", clustering=True, target="sixblob", n_max_clusters=None, normalize=nm, cluster_every=ce)}
             for nm in (True, False) for ce in (1, 2)]
     ctx.explore("large-scopes", big)
     dbase = dict(clustering=True, cluster_every=1, n_particles=24, d=2, ess_ratio=1.0, n_total=10 ** 6, target="bimodal", sample="tpcn")
